@@ -17,6 +17,7 @@
     validated against the event sequence of EvalOp.tla.
 """
 import json
+import os
 import random
 import re
 
@@ -101,6 +102,21 @@ def run(tier):
         if not r.ok:
             chk.violation("C09|design|evalop", "EvalOpMC.tla: RunOK fails (%s)" % cfg, {"tlc": (r.violation or "")[:2000]})
         members += r.cases
+    # random composite programs (recursion through declarations, rec expressions in function bodies, imports): EvalOp.tla in oracle mode
+    import gen
+    import oracle
+    cps = gen.programs(common.seed() * 1000 + 9, 150 if tier == "quick" else 1500, p_bad=0.0)
+    for lo in range(0, len(cps), 300):
+        path = oracle._write(cps[lo:lo + 300], "evalop")
+        try:
+            rcx = run_tlc("EvalOpMC", "EvalOp_file.cfg", workers=8, timeout=3000, java_opts=["-Xss1g"], xmx="12g", env_extra={"PROGRAMS": path})
+        finally:
+            os.unlink(path)
+        chk.add_tlc(rcx)
+        if not rcx.ok:
+            chk.violation("C09|design|evalop", "EvalOpMC.tla: RunOK fails on a composite program", {"tlc": (rcx.violation or "")[:2000]})
+        members += rcx.cases
+    n_comp = len(cps)
     if tier != "quick" and len(members) > 12000:
         inst = [c for c in members if len(c["prog"]["mods"]) > 1 or any(st["k"] == "decl" and st["s"] in ("f", "t", "g", "d", "a", "b", "@o") for st in c["prog"]["mods"]["m1"])]
         members = inst + rng.sample(members, 12000)
@@ -180,7 +196,7 @@ def run(tier):
     chk.cov["exhaustive"] = tier == "quick" or len(members) < 13000
     chk.notes["outcomes_spec_vs_real"] = {"%s/%s" % k: v for k, v in sorted(counts.items())}
     chk.cov["rule"] = ("RecGraphs: every assignment of a kind (object, array, alias, content, sum, function) and a set of references to each of 2 (quick) / 3 (thorough) "
-                       "declarations; RecInst: 13 instantiation templates; non-trivial = accepted and evaluated (flags, component count, closure and event trace compared)")
+                       "declarations; RecInst: 21 instantiation templates; seeded random composite programs (150 quick / 1500 thorough) judged by EvalOp.tla in oracle mode; non-trivial = accepted and evaluated (flags, component count, closure and event trace compared)")
     if members:
         k = len(members) // 2
         chk.sample({"program": cases[k]["files"], "spec": {"outcome": members[k]["outcome"], "rec": members[k]["rec"], "ncomp": members[k]["ncomp"]},
